@@ -14,9 +14,14 @@
 //!   Res   {fds,inodes,handles,cookies}  /proc/self/fd count + verif_table_sizes
 //! Inode numbers / handles are projected to small ids by first appearance (root = 1). Nothing is judged here.
 //!
-//!   ptrefs refs <workdir> <out> [scen.ndjson]   C08 histories: TLC-exported + seeded random (PT_HIST, PT_STEPS)
-//!   ptrefs res  <workdir> <out> [scen.ndjson]   C15 histories + EMFILE injection at every n (PT_HIST, PT_STEPS)
-//!   ptrefs dir  <workdir> <out> <abi.json> [scen.ndjson]  C16 listings (PT_DIRS = sizes, PT_STEPS)
+//!   ptrefs run <workdir> <out.ndjson> <scenarios.ndjson> [abi.json]
+//! One scenario per line of <scenarios.ndjson> (written by checks/ptrefs.py):
+//!   {cfg{fh,hostino,no_open,no_opendir,via}, tree[[path,kind d|f|l|p]], ops[{op,p,name,p2,name2,h,n,items,size,off,plus,fail_at,flags}]}
+//!       a fixed script in ids (TLC-exported behaviour of PtRefsImpl, EMFILE-injection scenario); op "quiesce" = release/forget all
+//!   {cfg, tree, random{kind refs|res|dir, seed, steps}, dir?, mounts?}   seeded random driver (C08 / C15 / C16)
+//!   {cfg, tree, dir, pattern[[slot, j, fit, plus]], mounts?}             TLC-exported resume pattern (C16)
+//! via: "pt" PassthroughFs directly, "vfs" Vfs with the passthrough mounted at /, "pseudo" the Vfs pseudo directory /p
+//! whose children are mount points, "server" Server<Arc<Vfs>>::handle_message with the spec-exported wire codec (abi.json).
 use fuse_backend_rs::abi::fuse_abi::{CreateIn, FsOptions};
 use fuse_backend_rs::api::filesystem::{Context, DirEntry, Entry, FileSystem, ZeroCopyReader, ZeroCopyWriter};
 use fuse_backend_rs::api::server::Server;
@@ -1428,7 +1433,7 @@ fn rand_dir(w: &mut World, dir: &str, seed: u64, steps: u64, mounts: &[String]) 
             }
             _ => break,
         }
-        if order.len() > 100_000 {
+        if order.len() > 20_000 {
             break;
         }
     }
@@ -1498,7 +1503,13 @@ fn rand_dir(w: &mut World, dir: &str, seed: u64, steps: u64, mounts: &[String]) 
     // an end-of-stream probe; the trace judge requires the chain from 0 to cover the host listing
     for (slot, plus) in [(0usize, false), (1usize, true)] {
         let mut j = 0usize;
+        let mut rounds = 0usize;
         loop {
+            // a misbehaving server must not make the driver spin
+            rounds += 1;
+            if rounds > 2 * n + 8 {
+                break;
+            }
             let mut o = Op::new("readdir");
             o.p = did;
             o.h = handles[slot];
@@ -1580,6 +1591,9 @@ fn dir_pattern(w: &mut World, dir: &str, pat: &[(usize, usize, usize, bool)], mo
                 off = rep.ents.last().unwrap().off;
             }
             _ => break,
+        }
+        if order.len() > 20_000 {
+            break;
         }
     }
     let n = order.len();
